@@ -257,6 +257,22 @@ FftFamily(z) ==
          ELSE {})
     : sh \in FShapes}
 
+
+\* ---------------------------------------------------------------- non-smooth points the rules handle explicitly (C01, second clause; C04)
+\* st names the kind of point; the harness builds data that sits exactly on the kink
+KinkFamily(z) ==
+  {Cfg(p, f, s, <<>>, <<>>, 0, ax, kd, 0, 0, <<>>, t, "rr", "array", NA) :
+      p \in {"max", "min", "amax", "amin"}, f \in {"func"}, s \in {<<3>>, <<2, 3>>, <<4>>}, ax \in {NoAx, AxInt(0), AxInt(-1)}, kd \in BOOLEAN,
+      t \in {"tie2", "tie3", "alltie"}}
+  \cup {Cfg(p, "func", s, s, <<>>, n, NoAx, FALSE, 0, 0, <<>>, t, "rr", "array", NA) :
+      p \in {"maximum", "minimum", "fmax", "fmin"}, s \in {<<3>>, <<2, 3>>}, n \in {0, 1}, t \in {"equal_some", "equal_all"}}
+  \cup {Cfg(p, f, s, <<>>, <<>>, 0, NoAx, FALSE, 0, 0, <<>>, "zero", "rr", "array", NA) :
+      p \in {"abs", "absolute", "fabs"}, f \in {"func", "op"}, s \in {<<3>>, <<2, 3>>, <<>>}}
+  \cup {Cfg("clip", f, s, <<>>, <<>>, 0, NoAx, FALSE, 0, 0, <<>>, t, "rr", "array", NA) :
+      f \in {"func", "method"}, s \in {<<3>>, <<2, 3>>, <<4>>}, t \in {"at_lower", "at_upper", "at_both"}}
+  \cup {Cfg("power", f, s, <<>>, <<>>, 0, NoAx, FALSE, e, 0, <<>>, "zero_base", "rr", "array", NA) :
+      f \in {"func", "op"}, s \in {<<3>>, <<2, 3>>}, e \in {1, 2, 3}}
+
 Space == CASE Family = "binary" -> BinaryFamily(0)
            [] Family = "where" -> WhereFamily(0)
            [] Family = "reduce" -> ReduceFamily(0)
@@ -264,6 +280,7 @@ Space == CASE Family = "binary" -> BinaryFamily(0)
            [] Family = "unary" -> UnaryFamily(0)
            [] Family = "rearr" -> RearrFamily(0)
            [] Family = "join" -> JoinFamily(0)
+           [] Family = "kink" -> KinkFamily(0)
            [] Family = "linalg" -> LinalgFamily(0)
            [] Family = "fft" -> FftFamily(0)
            [] Family = "index" -> {c \in IndexFamily(0) : SumConsumes(c.tp, 1) <= Len(c.s) /\ Cardinality({i \in DOMAIN c.tp : c.tp[i].t = "ell"}) <= 1}
